@@ -138,9 +138,42 @@ def perturb_lengths(data, rng):
     return evals, None
 
 
+def big_sections():
+    """Content much longer than any plausible internal block, followed by
+    more sections: exactly `length` bytes must be taken."""
+    evals = 0
+    for n in (4095, 4096, 4097, 65535, 65536, 65537, 70000, 131073, 200001):
+        body = (b'x' * 79 + b'\n') * (n // 80) + b'y' * (n % 80 - 1) + b'\n' \
+            if n % 80 else (b'x' * 79 + b'\n') * (n // 80)
+        assert len(body) == n, (len(body), n)
+        data = (b'#diffx: version=1.0\n#.change:\n#..file:\n'
+                b'#...meta: length=3\n{}\n#...diff: length=%d\n' % n + body
+                + b'#..file:\n#...meta: length=14\n{"a": "tail"}\n')
+        evals += 1
+        recs, ending = records(data)
+        ok = (ending == 'end' and len(recs) == 7 and
+              recs[4].get('diff') == body and
+              recs[6].get('metadata') == {'a': 'tail'})
+        if not ok:
+            return evals, {'file_len': len(data), 'declared_length': n,
+                           'file': data.hex() if n < 5000 else
+                           '(generated: diff of %d bytes followed by a file '
+                           'section)' % n,
+                           'error': 'a %d-byte section followed by more '
+                                    'data: %d records, ending %s, content '
+                                    'taken %s' % (
+                                        n, len(recs), ending,
+                                        len(recs[4].get('diff', b''))
+                                        if len(recs) > 4 else None)}
+    return evals, None
+
+
 def bounded(seed, nfiles, step):
     rng = random.Random(seed)
-    evals = 0
+    e0, w0 = big_sections()
+    if w0:
+        return {'evaluations': e0, 'known': 0, 'witness': w0}
+    evals = e0
     known_total = 0
     sample = None
     for _ in range(nfiles):
